@@ -28,14 +28,14 @@ Theorem C12_lexeme_from_events :
         c_estack cf' = c_estack cf /\ LexemeEvents.ev_ToLexemeType (fst ev) = Some (lk l)).
 Proof. exact lexeme_from_events. Qed.
 
-(* FULL STATEMENT (false of the current code): every lexeme lies inside the file with
-   begin <= end + 1.  Refuted: "GET /a /*/" yields an annotation lexeme [9:7] (finding F2). *)
-Theorem C12_refuted_annotation :
-  exists data l, In l (fst (fst (scan_case data []))) /\
-                 well_formed (Z.of_nat (List.length data)) l = false.
-Proof. exact lexeme_wellformed_refuted. Qed.
+(* regression for finding F2 (fixed in /repo): "GET /a /*/" is an error, not an annotation
+   lexeme with end before begin *)
+Theorem C12_f2_regression :
+  forallb (well_formed (Z.of_nat (List.length f2_input))) (fst (fst (scan_case f2_input []))) = true /\
+  match snd (fst (scan_case f2_input [])) with EndErr _ => true | _ => false end = true.
+Proof. exact f2_regression. Qed.
 
 Print Assumptions C12_event_offsets_partial.
 Print Assumptions C12_event_tables.
 Print Assumptions C12_lexeme_from_events.
-Print Assumptions C12_refuted_annotation.
+Print Assumptions C12_f2_regression.
